@@ -326,6 +326,7 @@ func init() {
 					return
 				}
 				d := &explore.ScheduleDFS{
+					Settle:   settle,
 					Scenario: "events-with-" + a.Name(),
 					New: func() (explore.World, error) {
 						w, err := NewC10World(a)
